@@ -10,10 +10,18 @@
 (*                                                                          *)
 (* IMPLEMENTATION-SHAPED part: MayOverlapImpl* transcribe                    *)
 (* rten-tensor/src/overlap.rs (is_contiguous, may_have_internal_overlap),    *)
-(* once over TLC integers with an optional word modulus M (M = 0: exact      *)
-(* arithmetic; M = 2^k: the usize arithmetic of a k-bit machine, used to     *)
-(* search exhaustively for wrap-around acceptances), once over Word limbs    *)
-(* (exact or wrapping at 2^64, used to judge traces of the real 64-bit code).*)
+(* once over TLC integers with an optional word size M (M = 0: exact          *)
+(* arithmetic; M = 2^k: a k-bit usize), once over Word limbs (64-bit usize).   *)
+(* The arithmetic MODE is                                                      *)
+(*   "exact"    unbounded integers (the mathematics of the criterion),         *)
+(*   "checked"  the CURRENT code: checked_mul / checked_add; an overflowing    *)
+(*              running product makes is_contiguous return false, an            *)
+(*              overflowing max_offset makes may_have_internal_overlap return    *)
+(*              true (repaired in /repo commit "fix: overlap and contiguity      *)
+(*              checks accepted aliasing layouts when arithmetic overflowed"),   *)
+(*   "wrap"     the code BEFORE that repair (wrapping release-mode arithmetic); *)
+(*              kept to generate wrap-around boundary inputs and to name a       *)
+(*              regression ("..._wrapped") should it reappear.                   *)
 EXTENDS Layout, Word, TLC
 
 \* ------------------------------------------------------------------ ints
@@ -29,16 +37,21 @@ InjectiveFast(shape, strides) ==
   Cardinality(OffSetR(shape, strides, Len(shape))) = Prod(shape)
 
 Wm(x, M) == IF M = 0 THEN x ELSE x % M
+\* does x overflow a usize of size M (never in exact arithmetic)
+OvM(x, M) == M # 0 /\ x >= M
 
-\* is_contiguous: walk dims from the innermost, skipping size-1 dims;
-\* `product` is a usize (wraps at M).
-RECURSIVE ContigR(_, _, _, _, _)
-ContigR(shape, strides, i, product, M) ==
+\* is_contiguous: walk dims from the innermost, skipping size-1 dims; `product` is the
+\* running product of the inner sizes (-1 stands for None = overflowed, mode "checked").
+RECURSIVE ContigR(_, _, _, _, _, _)
+ContigR(shape, strides, i, product, M, mode) ==
   IF i = 0 THEN TRUE
-  ELSE IF shape[i] = 1 THEN ContigR(shape, strides, i - 1, product, M)
-  ELSE IF strides[i] # product THEN FALSE
-  ELSE ContigR(shape, strides, i - 1, Wm(product * shape[i], M), M)
-IsContiguousImpl(shape, strides, M) == ContigR(shape, strides, Len(shape), 1, M)
+  ELSE IF shape[i] = 1 THEN ContigR(shape, strides, i - 1, product, M, mode)
+  ELSE IF product < 0 \/ strides[i] # product THEN FALSE
+  ELSE ContigR(shape, strides, i - 1,
+               IF mode = "checked" /\ OvM(product * shape[i], M) THEN 0 - 1
+               ELSE IF mode = "wrap" THEN Wm(product * shape[i], M) ELSE product * shape[i],
+               M, mode)
+IsContiguousImpl(shape, strides, M, mode) == ContigR(shape, strides, Len(shape), 1, M, mode)
 
 \* (stride, size) pairs of the dims with size # 1, sorted ascending
 \* lexicographically (sort_unstable on tuples).
@@ -54,38 +67,43 @@ SortedPairsR(shape, strides, i) ==
   ELSE InsertPair(<<strides[i], shape[i]>>, SortedPairsR(shape, strides, i - 1))
 SortedPairs(shape, strides) == SortedPairsR(shape, strides, Len(shape))
 
-\* the step-over loop: `max_offset` is a usize (wraps at M).
-RECURSIVE StepOverR(_, _, _)
-StepOverR(pairs, maxOff, M) ==
+\* the step-over loop on the usize `max_offset`
+RECURSIVE StepOverR(_, _, _, _)
+StepOverR(pairs, maxOff, M, mode) ==
   IF pairs = <<>> THEN FALSE
-  ELSE LET stride == Head(pairs)[1]  size == Head(pairs)[2] IN
+  ELSE LET stride == Head(pairs)[1]  size == Head(pairs)[2]
+           term == (size - 1) * stride IN
        IF stride <= maxOff THEN TRUE
-       ELSE StepOverR(Tail(pairs), Wm(maxOff + Wm((size - 1) * stride, M), M), M)
+       ELSE IF mode = "checked" /\ (OvM(term, M) \/ OvM(maxOff + term, M)) THEN TRUE   \* overflow => may overlap
+       ELSE StepOverR(Tail(pairs),
+                      IF mode = "wrap" THEN Wm(maxOff + Wm(term, M), M) ELSE maxOff + term, M, mode)
 
 \* may_have_internal_overlap.  `scaled` = TRUE models strides that are
 \* multiples of 2^(64-k): the contiguous fast path then only fires when the
 \* strides of all non-unit dims equal the (unscaled) products, which for
 \* scaled strides happens only if there is no non-unit dim.
-MayOverlapImplM(shape, strides, M, scaled) ==
+MayOverlapImplM(shape, strides, M, scaled, mode) ==
   IF IsEmpty(shape) THEN FALSE
   ELSE IF (IF scaled THEN \A i \in DOMAIN shape : shape[i] = 1
-           ELSE IsContiguousImpl(shape, strides, M)) THEN FALSE
-  ELSE StepOverR(SortedPairs(shape, strides), 0, M)
+           ELSE IsContiguousImpl(shape, strides, M, mode)) THEN FALSE
+  ELSE StepOverR(SortedPairs(shape, strides), 0, M, mode)
 
-MayOverlapImpl(shape, strides) == MayOverlapImplM(shape, strides, 0, FALSE)
+MayOverlapImpl(shape, strides) == MayOverlapImplM(shape, strides, 0, FALSE, "exact")
 
 \* ----------------------------------------------------------------- Words
-\* The same transcription over Word limbs; wrap = TRUE is the real 64-bit
-\* release-mode arithmetic, wrap = FALSE is exact arithmetic.
-Ww(x, wrap) == IF wrap THEN Wrap64(x) ELSE x
+\* The same transcription over Word limbs for the 64-bit usize; mode as above.
+Ww(x, mode) == IF mode = "wrap" THEN Wrap64(x) ELSE x
+OvW(x, mode) == mode = "checked" /\ ~Fits64(x)
+WNone == <<0 - 1>>          \* not a Word: the overflowed (None) running product
 
 RECURSIVE ContigWR(_, _, _, _, _)
-ContigWR(shape, strides, i, product, wrap) ==
+ContigWR(shape, strides, i, product, mode) ==
   IF i = 0 THEN TRUE
-  ELSE IF shape[i] = WOne THEN ContigWR(shape, strides, i - 1, product, wrap)
-  ELSE IF strides[i] # product THEN FALSE
-  ELSE ContigWR(shape, strides, i - 1, Ww(WMul(product, shape[i]), wrap), wrap)
-IsContiguousImplW(shape, strides, wrap) == ContigWR(shape, strides, Len(shape), WOne, wrap)
+  ELSE IF shape[i] = WOne THEN ContigWR(shape, strides, i - 1, product, mode)
+  ELSE IF product = WNone \/ strides[i] # product THEN FALSE
+  ELSE LET p == WMul(product, shape[i]) IN
+       ContigWR(shape, strides, i - 1, IF OvW(p, mode) THEN WNone ELSE Ww(p, mode), mode)
+IsContiguousImplW(shape, strides, mode) == ContigWR(shape, strides, Len(shape), WOne, mode)
 
 PairLeW(p, q) == WLt(p[1], q[1]) \/ (p[1] = q[1] /\ WLe(p[2], q[2]))
 RECURSIVE InsertPairW(_, _)
@@ -100,19 +118,20 @@ SortedPairsWR(shape, strides, i) ==
 SortedPairsW(shape, strides) == SortedPairsWR(shape, strides, Len(shape))
 
 RECURSIVE StepOverWR(_, _, _)
-StepOverWR(pairs, maxOff, wrap) ==
+StepOverWR(pairs, maxOff, mode) ==
   IF pairs = <<>> THEN FALSE
-  ELSE LET stride == Head(pairs)[1]  size == Head(pairs)[2] IN
+  ELSE LET stride == Head(pairs)[1]  size == Head(pairs)[2]
+           term == WMul(WSub(size, WOne), stride) IN
        IF WLe(stride, maxOff) THEN TRUE
-       ELSE StepOverWR(Tail(pairs),
-                       Ww(WAdd(maxOff, Ww(WMul(WSub(size, WOne), stride), wrap)), wrap), wrap)
+       ELSE IF OvW(term, mode) \/ OvW(WAdd(maxOff, term), mode) THEN TRUE
+       ELSE StepOverWR(Tail(pairs), Ww(WAdd(maxOff, Ww(term, mode)), mode), mode)
 
 IsEmptyW(shape) == \E i \in DOMAIN shape : shape[i] = WZero
 
-MayOverlapImplW(shape, strides, wrap) ==
+MayOverlapImplW(shape, strides, mode) ==
   IF IsEmptyW(shape) THEN FALSE
-  ELSE IF IsContiguousImplW(shape, strides, wrap) THEN FALSE
-  ELSE StepOverWR(SortedPairsW(shape, strides), WZero, wrap)
+  ELSE IF IsContiguousImplW(shape, strides, mode) THEN FALSE
+  ELSE StepOverWR(SortedPairsW(shape, strides), WZero, mode)
 
 \* --------------------------------------------- injectivity of Word layouts
 \* Exact decision by enumeration when the shape is small; otherwise a sound
@@ -166,7 +185,7 @@ InjectiveW(shapeW, stridesW) ==
                THEN (IF InjectiveFast(NatSeq(shapeW), NatSeq(red)) THEN "yes" ELSE "no")
                ELSE (IF InjectiveSmallW(NatSeq(shapeW), stridesW) THEN "yes" ELSE "no")
   ELSE IF CollisionWitnessW(shapeW, stridesW) THEN "no"
-  ELSE IF ~MayOverlapImplW(shapeW, stridesW, FALSE) THEN "yes"
+  ELSE IF ~MayOverlapImplW(shapeW, stridesW, "exact") THEN "yes"
   ELSE "unknown"
 \* reference (no scaling shortcut), compared with InjectiveW by MC_Overlap
 InjectiveWRef(shapeW, stridesW) ==
